@@ -47,7 +47,7 @@ WORLD = ["world_native.go"]
 
 def c07_units(tier):
     n = "3" if tier == "quick" else "4"
-    stub = {"loop": 20, "rec": 4, "stubs": "hasCycle=zzHasCycleSpec"}
+    stub = {"loop": 32, "rec": 4, "stubs": "hasCycle=zzHasCycleSpec"}
     return [
         Unit("hasCycle-vs-spec", WORLD + ["c07.go"], "zzC07_HasCycle_N" + n, {"loop": 24, "rec": int(n) + 1}, bounds="Deps over %s slot ids, any edge relation (cyclic or not), from/to arbitrary ids; recursion unwound to depth %s+1 with unwinding assertions" % (n, n)),
         Unit("link-step", WORLD + ["c07.go"], "zzC07_LinkStep", stub, note="hasCycle replaced by its reachability summary (checked by hasCycle-vs-spec)", bounds="store of 3 items (any kinds/states), edges = any acyclic same-kind relation between live items (symbolic rank witness), 1 tombstone; request sequence|sequence rm with arbitrary from/to ids (live, pruned, unknown, equal)"),
@@ -64,7 +64,7 @@ reg("C07", c07_units,
 # ---------------------------------------------------------------- C09
 def c09_units(tier):
     n = "3" if tier == "quick" else "4"
-    stub = {"loop": 24, "rec": 4, "stubs": "hasCycle=zzHasCycleSpec"}
+    stub = {"loop": 32, "rec": 4, "stubs": "hasCycle=zzHasCycleSpec"}
     hs = ["c06.go", "c07.go", "c09.go"]
     return [
         Unit("select-vs-spec", hs, "zzC09_Select_N" + n, {"loop": 24}, bounds="N=%s items in any states / kinds / epic membership (incl. dangling)" % n),
@@ -85,7 +85,7 @@ reg("C09", c09_units,
 
 # ---------------------------------------------------------------- C14 / C15
 HS14 = ["c06.go", "c07.go", "c09.go", "c14.go"]
-STUB = {"loop": 24, "rec": 4, "stubs": "hasCycle=zzHasCycleSpec"}
+STUB = {"loop": 32, "rec": 4, "stubs": "hasCycle=zzHasCycleSpec"}
 
 
 def c14_units(tier):
